@@ -5,8 +5,16 @@ ID = "C20"
 MOD = "harness.props.c20"
 T = "MetadorModel.C20."
 LEAN = dict(
-    modules=["MetadorModel.Model.Container"],
-    theorems=[],
+    modules=["MetadorModel.Props.C20"],
+    theorems=[T + n for n in (
+        "self_describing",
+        "only_used_embedded",
+        "reports_of_cache",
+        "self_describing_live",
+        "self_describing_after_reload",
+        "self_describing_reopen",
+        "reload_reports_only_used",
+    )],
     drivers=["drv_ctr"],
 )
 
